@@ -82,10 +82,15 @@ Pull_KF_C11 ==
   /\ Bound /\ Dev /\ dev' = TRUE
   /\ nops' = nops + 1 /\ UNCHANGED scen
   /\ IF sst \in {"fresh", "open"} /\ pos < n
-       THEN /\ pos' = pos + 1 /\ sst' = "open" /\ s1done' = s1done
-            /\ \E a \in GenSees, c \in (IF place = "other_task" THEN {Own} ELSE ConsLeak),
-                  m \in (IF place = "other_task" /\ ~InNested(pos) THEN {ItemOf(pos)[4], 0} ELSE {ItemOf(pos)[4]}) :
-                  obs' = [res |-> <<"item", pos, IF InNested(pos) THEN 3 ELSE a, m>>, cons |-> c, s1 |-> s1done]
+       THEN \/ \* consumed across tasks, the generator is resumed inside its nested scope by a task other than the one
+               \* that entered it: leaving that scope fails (context token of another Context), the stream dies
+               (/\ place = "other_task" /\ nested /\ pos = 2
+                /\ pos' = pos /\ sst' = "ended" /\ s1done' = FALSE
+                /\ obs' = [res |-> <<"exc", 0, 0, 0>>, cons |-> Own, s1 |-> FALSE])
+            \/ (/\ pos' = pos + 1 /\ sst' = "open" /\ s1done' = s1done
+                /\ \E a \in GenSees, c \in (IF place = "other_task" THEN {Own} ELSE ConsLeak),
+                      m \in (IF place = "other_task" /\ ~InNested(pos) THEN {ItemOf(pos)[4], 0} ELSE {ItemOf(pos)[4]}) :
+                      obs' = [res |-> <<"item", pos, IF InNested(pos) THEN 3 ELSE a, m>>, cons |-> c, s1 |-> s1done])
        ELSE IF sst \in {"fresh", "open"}
          THEN /\ sst' = "ended" /\ pos' = pos
               /\ IF place = "other_task"
